@@ -64,5 +64,17 @@ PROPS["C03"] = dict(
     assumptions=["dispatch table in c03_test.go reflects RTMP 1.0 section 7 and the library's documented packet set", "transaction ids > 0 and not NaN"],
 )
 
+PROPS["C04"] = dict(
+    pkg="c04", level="exploration", race=True,
+    rule="request histories executed with a writer goroutine and a reader goroutine on one Protocol over a harness-owned transport whose schedule (answer inside the transport write / after return / "
+         "free-running peer / deferred and reordered) is generated; all schedules enumerated for short histories; race detector on every execution; per-check rules under coverage.checks",
+    quick=dict(timeout=900), thorough=dict(shards=8, timeout=3000),
+    technique="property-based testing (rapid) over harness-owned transport schedules + exhaustive enumeration of schedules for short histories, model = transaction map at transport-event order; Go race detector",
+    level_text="The order of transport events is owned and generated/enumerated by the harness (including the answer being decoded before WritePacket returns); interleavings of individual memory "
+               "operations below that level are only covered by the race detector and repetition. Exploration, not enumeration of Go schedules.",
+    level_note="Trusts the harness transport and its model (requests count as sent when their bytes reach the transport). Transaction ids are reused only after the earlier use was answered and decoded.",
+    assumptions=["a data race report or a crash of the test process counts as a violation", "20 s without a queued response being decoded counts as a lost response"],
+)
+
 NOT_APPLICABLE = {}
 HOOK_COMMITS = []
